@@ -24,9 +24,9 @@ def run(c):
         c, "C09",
         explores=[("adv.quick", False), ("faults", False), ("bfd.quick", False), ("alert.quick", False),
                   ("epic.quick", False), ("adv.quick", True), ("faults", True), ("bfd.quick", True)],
-        budget=6400 if th else 200,
+        budget=2400 if th else 200,
         keep=slow,
-        rand={"rand": 500 if th else 40, "maxhops": 4, "kinds": ["scion", "epic"]},
+        rand={"rand": 150 if th else 40, "maxhops": 4, "kinds": ["scion", "epic"]},
         flags=["-c09"],
         nontrivial=lambda e: e["s"]["ran"])
     c.cov["rule"] = ("one event = one offending packet through fast and slow path of the real router; non-trivial = "
